@@ -33,3 +33,17 @@ Example ex_c09_sorted : fst (fst (api_run sorted_queue xstate nft_exec ops_c09 [
                         fst (fst (api_run list_queue xstate nft_exec ops_c09 [] ts0)).
 Proof. vm_compute. reflexivity. Qed.
 
+
+(* C09: a trigger whose next fire time is math.MaxInt64 ("never") -- the value suspended entries are parked at. The job is
+   ACTIVE: ResumeJob answers ErrJobIsActive, PauseJob succeeds, only then PauseJob answers ErrJobIsSuspended; after the
+   resume it is active again at MaxInt64 (the same on both queue instances) *)
+Definition ts_never : tid -> xstate := fun t => match t with 4%nat => TScript [] (inl go_MaxInt64) | _ => ts0 t end.
+Definition ops_c09_never : list (Z * apiop) :=
+  [ (100, OpSchedule (jd ka false false) (Some 4%nat)); (101, OpGet (Some ka)); (102, OpResume (Some ka)); (103, OpPause (Some ka));
+    (104, OpPause (Some ka)); (105, OpResume (Some ka)); (106, OpGet (Some ka)); (107, OpResume (Some ka)) ].
+Example ex_c09_never : fst (fst (api_run list_queue xstate nft_exec ops_c09_never [] ts_never)) =
+  [ ROk; RJob (mkEntry ka go_MaxInt64 false false 4%nat); RErr (ESent SJobIsActive); ROk;
+    RErr (ESent SJobIsSuspended); ROk; RJob (mkEntry ka go_MaxInt64 false false 4%nat); RErr (ESent SJobIsActive) ] /\
+  fst (fst (api_run sorted_queue xstate nft_exec ops_c09_never [] ts_never)) =
+  fst (fst (api_run list_queue xstate nft_exec ops_c09_never [] ts_never)).
+Proof. vm_compute. split; reflexivity. Qed.
